@@ -149,7 +149,7 @@ Definition law_entry_last (law : st -> bool) (toks : list Z) : list Z :=
 
 Definition entry (sel : Z) (toks : list Z) : list Z :=
   match sel with
-  | 1 | 2 | 3 | 4 | 5 => match run_dec dInput toks with
+  | 1 | 2 | 3 | 4 | 5 | 6 => match run_dec dInput toks with
          | Some (s, h) => trace s h 1
          | None => bad_input end
   | 101 => law_entry (fun s e s' _ => law_only_by_request s e s') toks
@@ -175,7 +175,10 @@ Definition entry (sel : Z) (toks : list Z) : list Z :=
   | 141 => law_entry_exc exc_stuck prune_stuck law_stuck_X toks       (* unsigned: any other stuck child *)
   | 142 => law_entry_exc exc_open prune_open law_openchild_X toks     (* unsigned: any other open child under a closed parent *)
   | 145 => law_entry_last law_no_idle_closing toks         (* unsigned: a queue left Closing with no PodGroup *)
-  | 146 => law_entry_last caught_up toks                   (* unsigned: the catch-up rounds really drained everything *)
+  (* unsigned: the catch-up really drained everything.  Only for retry budgets the catch-up is long
+     enough to exhaust (maxRequeueNum <= 3, or unlimited in the scripted shapes): with budget 15 several
+     never-succeeding requests share the processing steps and are legitimately still retrying *)
+  | 146 => law_entry_last (fun s => (3 <? maxrq s) || caught_up s) toks
   | 143 => law_entry_exc exc_stuck prune_stuck law_stuck_Y toks       (* signed: the known class *)
   | 144 => law_entry_exc exc_open prune_open law_openchild_Y toks     (* signed: the known class *)
   | _ => bad_input
